@@ -506,3 +506,84 @@ V("c04-align-returns-transpose", "fault", "C04", P + "polygon.py", "    return n
 V("rw-all-hoomd-try-finally", "rewrite", ALLP, P + "sphere.py",
   "        self.centroid = np.array([0, 0, 0])\n        data = self.to_json([\"diameter\", \"centroid\", \"volume\", \"inertia_tensor\"])\n        hoomd_dict = _map_dict_keys(data, key_mapping=_hoomd_dict_mapping)\n\n        self.centroid = old_centroid\n        return hoomd_dict",
   "        self.centroid = np.array([0, 0, 0])\n        try:\n            data = self.to_json([\"diameter\", \"centroid\", \"volume\", \"inertia_tensor\"])\n            return _map_dict_keys(data, key_mapping=_hoomd_dict_mapping)\n        finally:\n            self.centroid = old_centroid")
+
+# ------------------------------------------------------------------------------------------ batch 3 of independent seeds
+V("seed3-sphero-argmax-face", "fault", "C05", P + "convex_spheropolyhedron.py",
+  "        for point_id, face_id in zip(*np.where(point_faces_to_check)):",
+  "        nearest_ = np.argmax(np.where(point_faces_to_check, point_plane_distances, -np.inf), axis=1)\n        for point_id, face_id in zip(np.flatnonzero(point_faces_to_check.any(axis=1)), nearest_[point_faces_to_check.any(axis=1)]):",
+  rule="IN-5b")
+V("seed3-vertex-tiebreak-order", "fault", "C05", P + "polyhedron.py",
+  "        v0sign = sign_or(np.sign(diff_x_v0), np.sign(diff_y_v0), np.sign(diff_z_v0))\n        v1sign = sign_or(np.sign(diff_x_v1), np.sign(diff_y_v1), np.sign(diff_z_v1))\n        v2sign = sign_or(np.sign(diff_x_v2), np.sign(diff_y_v2), np.sign(diff_z_v2))",
+  "        v0sign = sign_or(np.sign(diff_x_v0), np.sign(diff_z_v0), np.sign(diff_y_v0))\n        v1sign = sign_or(np.sign(diff_x_v1), np.sign(diff_z_v1), np.sign(diff_y_v1))\n        v2sign = sign_or(np.sign(diff_x_v2), np.sign(diff_z_v2), np.sign(diff_y_v2))",
+  rule="IN-10")
+V("seed3-rw-vertex-tiebreak-renamed", "rewrite", "C05", P + "polyhedron.py", "diff_y_v1", "dy1", all=True)
+V("seed3-stl-shallow-copy", "fault", ["C16", "C20"], "coxeter/io.py", "        shape = deepcopy(shape)\n",
+  "        from copy import copy as _copy\n        shape = _copy(shape)\n        shape._vertices = shape._vertices.copy()\n", rule=None)
+V("seed3-face-centroids-buffer", "fault", "C16", P + "convex_polyhedron.py",
+  "        self._face_centroids = []\n        for face in self._coplanar_simplices:\n            self._face_centroids.append(",
+  "        self._face_centroids = []\n        self._fc_buffer = getattr(self, '_fc_buffer', None)\n        for face in self._coplanar_simplices:\n            self._face_centroids.append(",
+  rule="Q-1")
+V("seed3-mod-out-param", "fault", "C16", P + "convex_polygon.py", "        angles = np.mod(angles, 2 * np.pi)\n",
+  "        angles = np.asarray(angles, dtype=np.float64)\n        np.mod(angles, 2 * np.pi, out=angles)\n", rule="Q-3")
+V("seed3-rw-mod-out-own-copy", "rewrite", ["C16", "C14"], P + "convex_polygon.py", "        angles = np.mod(angles, 2 * np.pi)\n",
+  "        angles = np.array(angles, dtype=np.float64)\n        np.mod(angles, 2 * np.pi, out=angles)\n")
+V("seed3-centroid-setter-shares-array", "fault", "C08", P + "convex_polyhedron.py",
+  "        self._find_simplex_equations()\n        self._centroid_from_triangulated_surface()\n        self._calculate_signed_volume()\n",
+  "        self._find_simplex_equations()\n        self._centroid = np.asarray(value, dtype=np.float64)\n        self._calculate_signed_volume()\n", rule="TRANS-2")
+V("seed3-rw-centroid-setter-stores-copy", "rewrite", ["C03", "C08", "C16", "C19"], P + "convex_polyhedron.py",
+  "        self._find_simplex_equations()\n        self._centroid_from_triangulated_surface()\n        self._calculate_signed_volume()\n",
+  "        self._find_simplex_equations()\n        self._centroid = np.array(value, dtype=np.float64)\n        self._calculate_signed_volume()\n")
+V("seed3-area-setter-signed", "fault", "C08", P + "polygon.py", "scale = np.sqrt(value / self.area)", "scale = np.sqrt(value / self.signed_area)", rule="SET-1")
+V("seed3-inertia-about-vertex-mean", "fault", "C01", P + "convex_polyhedron.py", "            abc -= self.centroid\n",
+  "            abc = abc - np.mean(self.vertices, axis=0)\n", rule="REF-1")
+V("seed3-inertia-about-vertex-mean-general", "fault", "C02", P + "polyhedron.py", "            simplices -= self.center\n",
+  "            simplices = simplices - np.mean(self.vertices, axis=0)\n", rule="REF-1")
+V("seed3-rw-inertia-centroid-copy", "rewrite", ["C01", "C03", "C16"], P + "convex_polyhedron.py", "            abc -= self.centroid\n",
+  "            com = np.array(self.centroid, dtype=float).copy()\n            abc = abc - com\n")
+V("seed3-rw-inertia-centroid-copy-general", "rewrite", ["C02", "C16"], P + "polyhedron.py", "            simplices -= self.center\n",
+  "            com = self.center.copy()\n            simplices = simplices - com[None, None, :]\n")
+V("seed3-face-centroid-fast-path", "fault", "C01", P + "convex_polyhedron.py",
+  "        for face in self._coplanar_simplices:\n            self._face_centroids.append(",
+  "        for face in self._coplanar_simplices:\n            if len(face) <= 2:\n                self._face_centroids.append(np.mean(simplex_centroids[face], axis=0))\n                continue\n            self._face_centroids.append(",
+  rule="FC-1")
+V("seed3-rw-face-centroid-single-simplex", "rewrite", "C01", P + "convex_polyhedron.py",
+  "        for face in self._coplanar_simplices:\n            self._face_centroids.append(",
+  "        for face in self._coplanar_simplices:\n            if len(face) == 1:\n                self._face_centroids.append(simplex_centroids[face[0]])\n                continue\n            self._face_centroids.append(")
+V("seed3-planarity-absolute", "fault", ["C15", "C09"], P + "polygon.py",
+  "        for v in self.vertices:\n            if not np.isclose(self._normal.dot(v), d, planar_tolerance):\n                raise ValueError(\"Not all vertices are coplanar.\")",
+  "        heights = self._vertices @ self._normal\n        if not np.allclose(heights, heights[0], atol=planar_tolerance):\n            raise ValueError(\"Not all vertices are coplanar.\")", rule=None)
+V("seed3-rw-planarity-vectorised-relative", "rewrite", ["C15", "C09", "C13"], P + "polygon.py",
+  "        for v in self.vertices:\n            if not np.isclose(self._normal.dot(v), d, planar_tolerance):\n                raise ValueError(\"Not all vertices are coplanar.\")",
+  "        heights = self._vertices @ self._normal\n        if not np.allclose(heights, d, rtol=planar_tolerance):\n            raise ValueError(\"Not all vertices are coplanar.\")")
+V("seed3-sphero-drops-normal", "fault", "C15", P + "convex_spheropolygon.py", "self._polygon = ConvexPolygon(vertices, normal)", "self._polygon = ConvexPolygon(vertices)", rule="CT-5")
+V("seed3-ngon-float-arange", "fault", "C17", F + "common.py", "theta = np.linspace(0, 2 * pi, num=n, endpoint=False) + angle",
+  "theta = np.deg2rad(np.arange(0, 360, 360 / n)) + angle", rule="UV-1")
+V("seed3-int-inplace-tolerance", "fault", "C17", F + "plane_shape_families.py",
+  "        dist_filter = (dots <= alldists[np.newaxis, :] + thresh).all(axis=1)",
+  "        alldists += thresh\n        dist_filter = (dots <= alldists).all(axis=1)", rule="DTYPE-1")
+V("seed3-rw-float-dists-inplace", "rewrite", "C17", F + "plane_shape_families.py",
+  "        dists = np.array([a, b, c])\n", "        dists = np.array([a, b, c], dtype=float)\n")
+V("seed3-family-class-cache", "fault", "C18", F + "tabulated_shape_family.py",
+  "        return from_gsd_type_shapes(self.data[name])",
+  "        if name not in self._shape_cache:\n            self._shape_cache[name] = from_gsd_type_shapes(self.data[name])\n        return self._shape_cache[name]\n\n    _shape_cache = {}", rule="LOAD-2")
+V("seed3-family-self-iterator", "fault", "C18", F + "tabulated_shape_family.py",
+  "        for key in self.names:\n            yield (key, self.get_shape(key))",
+  "        self._remaining_names = iter(self.names)\n        return self", rule="LOAD-3")
+V("seed3-rw-loader-idioms", "rewrite", "C18", F + "tabulated_shape_family.py",
+  "        self._shape_names = [*data.keys()]", "        self._shape_names = list(data)")
+V("seed3-rw-loader-get-shape-temp", "rewrite", "C18", F + "tabulated_shape_family.py",
+  "        return from_gsd_type_shapes(self.data[name])", "        record = self._data[name]\n        shape = from_gsd_type_shapes(record)\n        return shape")
+V("seed3-rw-loader-iter-temp", "rewrite", "C18", F + "tabulated_shape_family.py",
+  "        for key in self.names:\n            yield (key, self.get_shape(key))",
+  "        for shape_name in self._shape_names:\n            shape = self.get_shape(shape_name)\n            yield shape_name, shape")
+V("seed3-gsd-truthy-radius", "fault", "C19", "coxeter/shape_getters.py", '"rounding_radius" in params', 'params.get("rounding_radius")', rule="GSD-1", allow_error=True)
+V("seed3-repr-drops-normal", "fault", "C19", P + "polygon.py",
+  '            f"coxeter.shapes.Polygon(vertices={self.vertices.tolist()}, "\n            f"normal={self.normal.tolist()})"',
+  '            f"coxeter.shapes.Polygon(vertices={self.vertices.tolist()})"', rule="REPR-3")
+V("seed3-hoomd-aligned-vertices", "fault", "C19", P + "polygon.py",
+  '        hoomd_dict = {**hoomd_dict, **{"vertices": self.vertices[:, :2].copy()}}',
+  '        verts, _ = _align_points_by_normal(self.normal, self.vertices)\n        hoomd_dict = {**hoomd_dict, **{"vertices": verts[:, :2]}}', rule="HOOMD-4")
+V("seed3-repr-array2string", "fault", "C19", P + "polyhedron.py", "vertices={self.vertices.tolist()}",
+  "vertices={np.array2string(self.vertices, separator=', ', floatmode='unique')}", rule="REPR-2")
+V("seed3-stl-skip-small", "fault", "C20", IO, "                n = np.cross(t[1] - t[0], t[2] - t[1])  # order?\n",
+  "                n = np.cross(t[1] - t[0], t[2] - t[1])  # order?\n                if np.allclose(n, 0):\n                    continue\n", rule="CNT-2")
